@@ -514,6 +514,10 @@ func genCases(r *hlib.Run) []*kase {
 	if T {
 		modelBudget = 24_000_000
 	}
+	wtieBudget := 600_000
+	if T {
+		wtieBudget = 3_000_000
+	}
 	nAdd := 0
 	add := func(name string, data []byte, external, chunked bool) {
 		m := len(data) <= 4096
@@ -525,6 +529,12 @@ func genCases(r *hlib.Run) []*kase {
 			r.Count("model-skipped(payload too large for the model budget)")
 		}
 		k := &kase{kind: "rt", name: name, data: data, model: m, external: external, chunked: chunked}
+		// the Wuffs-model tie (wdec lines) costs ~15 model passes over the payload: a byte budget, spent in
+		// generation order so that the choice is deterministic
+		if m && external && len(data) <= 4096 && wtieBudget >= len(data) {
+			k.wtie = true
+			wtieBudget -= len(data)
+		}
 		// every third payload up to 2 KiB is also encoded / decoded with a non-empty dst to append to
 		// (1..9 bytes, so that len(dst) is not a multiple of 4: the XZ padding is relative to dstLen0)
 		nAdd++
